@@ -3,6 +3,7 @@
 package main
 
 import (
+	"sync"
 	"bufio"
 	"crypto/sha1"
 	"encoding/hex"
@@ -27,6 +28,7 @@ type Env struct {
 	cases, impl, oracle *bufio.Writer
 	files               []*os.File
 
+	oracleMu    sync.Mutex // for jobs that report from several goroutines
 	nCases      int
 	nOracleFail int
 	distinct    map[string]bool // hashes of non-trivial canonical cases
